@@ -682,86 +682,9 @@ def analyze(ctx, want):
     # hand-written impl is accepted when it is field-wise: every path of eq that can answer `true` compared self.f with
     # other.f for every field f, and hash feeds every field into the hasher on every path.  Comparisons of a function of
     # the whole value (e.g. its Display text) are not accepted: such renderings need not be injective.
-    def strip_ref(t):
-        while t[0] in ("ref", "deref") or (t[0] == "app" and re.search(r"Deref>::deref$|Borrow<.*>>::borrow$|AsRef<.*>>::as_ref$", str(t[1])) and len(t[2]) == 1):
-            if t[0] == "ref":
-                loc = t[1]
-                if loc[0] == "loc" and loc[1][0] == "sym":
-                    return ("loc", loc[1], tuple(st[1] for st in loc[2]))
-                return t
-            t = t[1] if t[0] == "deref" else t[2][0]
-        return t
-
-    def side(t):
-        """('self'|'other', field) if t denotes <self|other>.<field> (through any number of references), else None"""
-        s_ = S.fstr(t).lstrip("&*")
-        m = re.match(r"^\(?\*?(self|other|arg1|arg2)\)?\.(\w+)$", s_)
-        if m:
-            return ({"arg1": "self", "arg2": "other"}.get(m.group(1), m.group(1)), m.group(2))
-        return None
-
-    def eq_fields(t, outcome=True):
-        l = r = None
-        neg = False
-        if t[0] == "binop" and t[1] in ("Eq", "Ne"):
-            l, r, neg = t[2], t[3], t[1] == "Ne"
-        elif t[0] == "app" and re.search(r"PartialEq(<[^>]*>)?>::(eq|ne)$", str(t[1])) and len(t[2]) == 2:
-            l, r, neg = t[2][0], t[2][1], str(t[1]).endswith("::ne")
-        elif t[0] == "not":
-            return eq_fields(t[1], not outcome)
-        if l is None:
-            return None
-        if (outcome is True) == neg:
-            return None          # this atom being (un)true says the fields differ
-        a_, b_ = side(l), side(r)
-        if a_ and b_ and a_[1] == b_[1] and {a_[0], b_[0]} == {"self", "other"}:
-            return a_[1]
-        return None
-
-    def fieldwise_eq(fn, fields):
-        ex_, ps_ = run_fn(fn, F, BaseModel(), max_paths=4000)
-        bad = []
-        n_true = 0
-        for p_ in ret_paths(ps_):
-            r_ = p_.end[1]
-            if r_ == ("bool", False):
-                continue
-            got = set()
-            for c_, o_ in p_.conds:
-                if isinstance(o_, bool):
-                    f_ = eq_fields(c_, o_)
-                    if f_:
-                        got.add(f_)
-            if r_ != ("bool", True):
-                f_ = eq_fields(r_, True)
-                if f_:
-                    got.add(f_)
-                else:
-                    bad.append("result %s is not a comparison of one field of self with the same field of other" % S.fstr(r_)[:70])
-                    continue
-            n_true += 1
-            if not set(fields) <= got:
-                bad.append("can answer 'equal' after comparing only %s of %s" % (sorted(got), fields))
-        return (n_true >= 1 and not bad), "; ".join(bad[:2]) or "every accepting path compares %s" % fields
-
-    def fieldwise_hash(fn, fields):
-        ex_, ps_ = run_fn(fn, F, BaseModel(), max_paths=4000)
-        bad = []
-        n_ = 0
-        for p_ in ret_paths(ps_):
-            n_ += 1
-            got = set()
-            for c_ in p_.calls(r"Hash>::hash(::<.*>)?$|Hasher>::write\w*$"):
-                a0 = c_[3][0]
-                v_ = ex_.deref_val(p_, a0) if a0[0] == "ref" else a0
-                for cand in (a0, v_):
-                    sd = side(cand)
-                    if sd and sd[0] == "self":
-                        got.add(sd[1])
-            if not set(fields) <= got:
-                bad.append("hashes only %s of %s" % (sorted(got), fields))
-        return (n_ >= 1 and not bad), "; ".join(bad[:2]) or "every path hashes %s" % fields
-
+    from .common import fieldwise_eq as _feq, fieldwise_hash as _fhash
+    fieldwise_eq = lambda fn_, fields_: _feq(F, fn_, fields_)
+    fieldwise_hash = lambda fn_, fields_: _fhash(F, fn_, fields_)
     for tname in ("scanner_mode::ScannerMode", "pattern::Pattern", "pattern::Lookahead", "internal::ids::TerminalID", "internal::ids::ScannerModeID"):
         a = F.adts.get(tname)
         fields = [f["name"] for f in a["variants"][0]["fields"]] if a else None
